@@ -4,7 +4,12 @@
      the DISTINCT outcomes observed in fresh generator processes (registry phase: status and, for every type of the
      input package root in registration order, the package path and type name the real registry assigned).
      The model is evaluated for every relative iteration order of the identifiers in [r_perm] (all permutations, put
-     first) and both orders of every reference list; every observed outcome must be one of the model's.            *)
+     first) and both orders of every reference list; every observed outcome must be one of the model's.
+   - CRegM: SEVERAL manifests (input and dependency data types, each with the references the real code computes) in the
+     order they were handed to the real cmd.RegisterManifests, the registry's native content before, and what a fresh
+     generator process answered: status and, for every type registered under a manifest's package root, the root it was
+     filed under and the package path / type name it was assigned.  The model (register_manifests: both passes, then
+     finalize) must give the same status, the same number of types and the same (root, package, name) for each.     *)
 From Coq Require Import List Bool Arith NArith.
 From Coq.Strings Require Import Byte.
 From GR Require Import Base.Bytes Gen.TablesGen Gen2.Ident Gen2.Registry.
@@ -16,7 +21,9 @@ Inductive case :=
 | CIdent (s : bytes) (status : nat) (out : bytes)
 | CPath (root fqcp out : bytes)
 | CPkgName (s out : bytes)
-| CReg (r_reg : list entry) (r_root : bytes) (r_perm : list ident) (r_wf : bool) (r_observed : list outcome).
+| CReg (r_reg : list entry) (r_root : bytes) (r_perm : list ident) (r_wf : bool) (r_observed : list outcome)
+| CRegM (m_init : list entry) (m_manifests : list manifest) (m_status : nat)
+        (m_observed : list (ident * (bytes * (bytes * bytes)))).
 
 Definition status_of {A} (r : gres A) : nat :=
   match r with Ok _ => 0 | Err _ => 1 | Panic => 2 | OutOfModel => 3 end.
@@ -67,6 +74,23 @@ Fixpoint dedup (l : list outcome) : list outcome :=
   | a :: r => if existsb (outcome_eqb a) r then dedup r else a :: dedup r
   end.
 
+(* CRegM: the types the run added to the registry, as (id, (root, (package, name))) *)
+Definition added (init : list entry) (fin : registry) : list (ident * (bytes * (bytes * bytes))) :=
+  flat_map (fun e => if known init (e_id e) then [] else [(e_id e, (e_root e, (out_pkg e, out_name e)))]) fin.
+
+Definition regm_ok (init : list entry) (ms : list manifest) (status : nat)
+                   (obs : list (ident * (bytes * (bytes * bytes)))) : bool :=
+  match register_manifests init ms with
+  | Ok fin =>
+      Nat.eqb status 0 && Nat.eqb (length (added init fin)) (length obs) &&
+      forallb (fun o => match lookup fin (fst o) with
+                        | Some e => negb (known init (fst o)) && bytes_eqb (e_root e) (fst (snd o)) &&
+                                    bytes_eqb (out_pkg e) (fst (snd (snd o))) && bytes_eqb (out_name e) (snd (snd (snd o)))
+                        | None => false
+                        end) obs
+  | r => Nat.eqb (status_of r) status
+  end.
+
 Definition res_bytes (r : gres bytes) : bytes := match r with Ok b => b | _ => [] end.
 
 (* what the model says, in a form that prints usefully for the first mismatches *)
@@ -76,6 +100,11 @@ Definition model_out (c : case) : list outcome :=
   | CPath root f _ => [(0, [(package_path root f, [])])]
   | CPkgName s _ => [(0, [(package_name s, [])])]
   | CReg reg root perm _ _ => dedup (reg_outcomes reg root perm)
+  | CRegM init ms _ _ =>
+      match register_manifests init ms with
+      | Ok fin => [(0, map (fun a => (fst (snd a), snd (snd (snd a)))) (added init fin))]
+      | r => [(status_of r, [])]
+      end
   end.
 
 Definition check_case (c : case) : bool :=
@@ -90,6 +119,7 @@ Definition check_case (c : case) : bool :=
       Bool.eqb (wf_manifestb reg) wf &&
       let outs := reg_outcomes reg root perm in
       forallb (fun o => existsb (outcome_eqb o) outs) obs
+  | CRegM init ms status obs => regm_ok init ms status obs
   end.
 
 Fixpoint mismatches_from (i : nat) (l : list case) : list nat :=
